@@ -1,0 +1,24 @@
+//go:build verif
+
+// Contracts for package scorch (read by /verif/gocv; comment-only effect with the verif tag off).
+
+package scorch
+
+// locks are not modelled (sequential proofs): lock calls are no-ops here
+//@ assume func sync.RWMutex.RLock(m)
+//@ assume func sync.RWMutex.RUnlock(m)
+//@ assume func sync.RWMutex.Lock(m)
+//@ assume func sync.RWMutex.Unlock(m)
+
+// ---------------------------------------------------------------------------
+// C10: the uninverted doc-value cache is prepared for every requested field
+// ---------------------------------------------------------------------------
+
+// hasFields is true exactly when ALL the given fields are cached (so a missing one triggers
+// preparation in documentVisitFieldTermsOnSegment).
+//@ func cachedDocs.hasFields
+//@   props C10
+//@   mode int
+//@   requires c != nil
+//@   ensures result == forall(k, 0, len(fields), in(c.cache, fields[k]))
+//@   loop 0: invariant forall(k, 0, iter, in(c.cache, fields[k]))
